@@ -340,9 +340,6 @@ Section Range.
   Qed.
 End Range.
 
-Check contains_spec.
-Check range_spec.
-Check range_spec_points.
 Print Assumptions contains_spec.
 Print Assumptions range_spec.
 Print Assumptions range_spec_points.
